@@ -279,6 +279,16 @@ func (r *runner) inconclusive(msg string) {
 }
 
 func (r *runner) finish() {
+	// finish is always the deferred function itself, so recover() sees a panic of the
+	// test goroutine. A run that ends in a panic is NOT complete: the supervisor must
+	// see a process death (with the original frames), never a short but "complete" run.
+	if rec := recover(); rec != nil {
+		r.mu.TryLock()
+		r.res.Complete = false
+		b, _ := json.Marshal(&r.res)
+		_ = os.WriteFile(r.resultPath(), b, 0o644)
+		panic(rec)
+	}
 	r.mu.Lock()
 	defer r.mu.Unlock()
 	r.res.Complete = true
